@@ -1086,7 +1086,8 @@ static void caseLEM(Ctx& c, long idx, Rng& r) {
     c.obs("lem:ok"); c.cover(key("ok"));
     c.setPhase("lem judge");
     double pe1 = NaN, fs1 = NaN, qe = NaN;
-    auto W = [&] { return Json::obj().set("model", S.m.desc.shortStr()).set("userEuler", S.userEuler).set("cons", S.conTypes()).set("forces", fkinds).set("tolerance", tolerance)
+    const double qe0 = normOf(holoErrs(S, user0), false);
+    auto W = [&] { return Json::obj().set("qerrBefore", qe0).set("model", S.m.desc.shortStr()).set("userEuler", S.userEuler).set("cons", S.conTypes()).set("forces", fkinds).set("tolerance", tolerance)
                        .set("peBefore", pe0).set("peAfter", pe1).set("forceScale", fs0).set("qerrAfter", qe); };
     if (!allFinite(user.getQ())) { c.viol("lem:nonfinite:" + mode, W()); return; }
     // the client's instance-level settings survive
